@@ -1136,19 +1136,52 @@ class Mailbox:
         # messages it shrunk.
         #
         if len(msg_keys) < self.num_msgs:
-            logger.warning(
-                "Mailbox: '%s' has shrunk, from %d messages to %d. "
-                "Treating it as a new mailbox.",
-                self.name,
-                self.num_msgs,
-                len(msg_keys),
-            )
-            self.msg_keys = []
-            self.uids = []
-            self.num_msgs = 0
-            self.num_recent = 0
-            self.sequences = defaultdict(set)
-            self.mtime = start_mtime
+            on_disk = set(msg_keys)
+            if len(self.msg_keys) == len(self.uids) and on_disk.issubset(
+                self.msg_keys
+            ):
+                # Messages we know about are gone and nothing else changed:
+                # an expunge removed the files but we did not get to record
+                # it (the server was killed half-way through.) The messages
+                # that are left keep their UIDs.
+                #
+                logger.warning(
+                    "Mailbox: '%s' has shrunk, from %d messages to %d. "
+                    "Dropping the messages that are gone.",
+                    self.name,
+                    self.num_msgs,
+                    len(msg_keys),
+                )
+                kept = [
+                    (k, u)
+                    for k, u in zip(self.msg_keys, self.uids, strict=True)
+                    if k in on_disk
+                ]
+                self.msg_keys = [k for k, _ in kept]
+                self.uids = [u for _, u in kept]
+                self.num_msgs = len(self.msg_keys)
+                for seq in self.sequences.values():
+                    seq.intersection_update(on_disk)
+                self.num_recent = len(self.sequences["Recent"])
+                self._rebuild_index_dicts()
+            else:
+                logger.warning(
+                    "Mailbox: '%s' has shrunk, from %d messages to %d. "
+                    "Treating it as a new mailbox.",
+                    self.name,
+                    self.num_msgs,
+                    len(msg_keys),
+                )
+                # NOTE: The messages get new UIDs. UIDs handed out under the
+                #       old UIDVALIDITY must not come to mean other messages.
+                #
+                self.uid_vv = await self.server.get_next_uid_vv()
+                self.msg_keys = []
+                self.uids = []
+                self.num_msgs = 0
+                self.num_recent = 0
+                self.sequences = defaultdict(set)
+                self.mtime = start_mtime
 
         elif len(self.msg_keys) != len(self.uids):
             # XXX There was something broken in the past where we grew the
@@ -1176,6 +1209,7 @@ class Mailbox:
                     len(self.uids),
                     len(msg_keys),
                 )
+                self.uid_vv = await self.server.get_next_uid_vv()
                 self.msg_keys = []
                 self.uids = []
                 self.num_msgs = 0
